@@ -1367,18 +1367,14 @@ func (in *inliner) run() {
 
 func (in *inliner) anyChanged() bool { return len(in.changed) > 0 }
 
-// fileUnsupported: files whose comments carry meaning are never rewritten.
+// fileUnsupported: cgo files are never rewritten.  Compiler directives in
+// comments (//go:generate, //go:noinline, //go:embed …) are dropped with the
+// other comments: the overlay is only type-checked and analysed, never compiled
+// into a program, and none of them changes typing.
 func (in *inliner) fileUnsupported(f *ast.File) bool {
 	for _, im := range f.Imports {
 		if im.Path.Value == `"C"` {
 			return true
-		}
-	}
-	for _, cg := range f.Comments {
-		for _, c := range cg.List {
-			if cg.End() > f.Package && (strings.HasPrefix(c.Text, "//go:") || strings.HasPrefix(c.Text, "//line ") || strings.HasPrefix(c.Text, "/*line ")) {
-				return true
-			}
 		}
 	}
 	return false
